@@ -79,7 +79,7 @@ def run_layers(ctx, files1, files2, p1pattern):
                                           'p1': 'role:hidden'})
             env.write('d1/sub/zz.yaml', {'p0': 'role:sub', 'p1': 'role:sub'})
             env.write('d1/~zzz-empty.yaml', {}, raw='')
-        os.makedirs(env.path('d2'), exist_ok=True)
+        env.mkdir('d2')
         defaults = [policy.RuleDefault('q', 'role:q')]
         if defined['L0']:
             defaults.append(policy.RuleDefault('p0', 'role:L0'))
